@@ -7,7 +7,8 @@
 From PM Require Import Model.Prelude Model.Domain Model.Constraint Model.BindAll Model.Scheme Model.Matchers Model.BindMaps
   Model.DomString Model.DomPGKeys Model.DomPG Model.DomPGPattern Spec.TopoSpec
   Proofs.SchemeProofs Proofs.PGTreeProofs Proofs.PGLawful Proofs.PGEmbed Proofs.PGComplete Proofs.PGEmbedComplete
-  Proofs.SingleComplete Proofs.PGSingleComplete Proofs.PGWalkEmbed.
+  Proofs.SingleComplete Proofs.PGSingleComplete Proofs.PGWalkEmbed
+  Model.Automaton Model.Traversal Cert.WfCheck Cert.WinCheck Cert.PGCert Proofs.WfSound Proofs.MatrixRun Proofs.PGRunComplete.
 Local Open Scope N_scope.
 
 Definition pg_good_pattern (P : pghost) (root : N) (cs : list pgconstraint) (nk : list (N * pgkey)) : bool :=
@@ -99,4 +100,60 @@ Proof.
   - exists m. split; [exact Hm|]. intros u k Hin. apply HQ; [exact Hin|].
     apply Hreqk. specialize (G3 (u, k) Hin). apply existsb_exists in G3 as [c [Hc Hk]]. cbn [snd] in Hk.
     apply (memb_in pgkey_eqb pgkey_eqb_eq) in Hk. exists k. split; [apply in_flat_map; exists c; auto|]. constructor. tauto.
+Qed.
+
+(** ** the same for the automaton (C02, run level): on a well-formed automaton that
+    passes the completeness certificate for the constraint list of a good pattern,
+    and all of whose keys are keys of that pattern, the breadth-first run reports
+    every embedding, with every recorded key bound to the image of its node *)
+Definition aut_keys_in (nk : list (N * pgkey)) (A : automaton pgkey pgpred) : bool :=
+  forallb (fun st => forallb (fun k => memb pgkey_eqb k (map snd nk)) (useful_keys pg_dom st)) (au_states A).
+
+Theorem pg_run_reports_embedding (P : pghost) (root : N) cs nk (H : pghost) (f : N -> N)
+        (A : automaton pgkey pgpred) rk ids css pres i fuel ms :
+  pg_cvec_full P root = Ok (cs, nk) -> lines_sound P root = true -> keys_distinct nk = true ->
+  pg_good_pattern P root cs nk = true -> pg_host_wfb P = true -> pg_host_wfb H = true ->
+  pg_embedding P H root nk f ->
+  wf_check pg_dom A rk ids = true -> cert_complete pg_entails pg_refutes A css pres = true ->
+  nth_error css i = Some cs -> nth_error pres i = Some true -> aut_keys_in nk A = true ->
+  run pg_dom fuel A H = Ok ms ->
+  exists st keys b, In st (au_states A) /\ In (N.of_nat i, keys) (a_matches st) /\ In (N.of_nat i, b) ms
+    /\ forall k, In k keys -> exists u, In (u, k) nk /\ pgget b k = Some (f u).
+Proof.
+  intros CV Hls Hkd Hg HwP HwH He W CC Hcs Hpr Hak R.
+  pose proof (links_le P H root nk f HwP He) as Hlen.
+  destruct He as [Hl [Hi Hlive]].
+  unfold pg_good_pattern in Hg. apply andb_true_iff in Hg as [Hg G4]. apply andb_true_iff in Hg as [Hg G3]. apply andb_true_iff in Hg as [G1 G2].
+  rewrite forallb_forall in G1, G2, G3.
+  assert (Hkd' : NoDup (map snd nk)).
+  { unfold keys_distinct in Hkd. apply andb_true_iff in Hkd as [Hk1 _]. now apply (nodupb_NoDup pgkey_eqb pgkey_eqb_eq). }
+  assert (Hroot : In (root, PathRoot 0) nk).
+  { apply existsb_exists in G4 as [[u k] [Hin E]]. cbn [fst snd] in E. apply andb_true_iff in E as [E1 E2].
+    apply N.eqb_eq in E1. apply pgkey_eqb_eq in E2. now subst. }
+  assert (Hsat : forall c, In c cs -> pgval H (bind_of f nk) c = true).
+  { apply (pg_embedding_satisfies P root H f cs nk CV Hls Hkd HwH Hl).
+    intros u k u' k' H1 H2 Hne E. apply Hne. apply Hi; [right|right|exact E].
+    - apply in_map_iff. exists (u, k). auto.
+    - apply in_map_iff. exists (u', k'). auto. }
+  pose proof (wf_check_sound pg_dom pg_dom_eq A rk ids W) as HWF.
+  pose proof (pg_cert_complete_sound A css pres i cs H (bind_of f nk) CC Hcs Hpr Hsat) as Hacc.
+  destruct (pg_run_reports H f nk root Hkd' Hroot) with (A := A) (ids := ids) (fuel := fuel) (ms := ms) (p := N.of_nat i)
+    as [st [keys [b [Hst [Hpk [Hb Hk]]]]]]; auto.
+  - intros u k Hin. specialize (G1 (u, k) Hin). cbn [fst snd] in G1. destruct k as [j|r0 p len].
+    + apply andb_true_iff in G1 as [E _]. now apply N.eqb_eq in E.
+    + apply andb_true_iff in G1 as [E _]. now apply N.eqb_eq in E.
+  - intros u p len Hin. specialize (G1 (u, AlongPath 0 p len) Hin). cbn [fst snd] in G1. apply andb_true_iff in G1 as [_ G1].
+    destruct (nth_error (walk_nodes P root p) (N.to_nat len)) as [n|] eqn:En; [|discriminate]. apply N.eqb_eq in G1. subst n.
+    apply (walk_nodes_embed P H f (pg_host_wfb_sound H HwH) Hl); [|exact Hlen|exact En].
+    intros a b0 Ha Hb0. apply Hi; now left.
+  - intros st k Hst Hk. unfold aut_keys_in in Hak. rewrite forallb_forall in Hak. specialize (Hak st Hst).
+    rewrite forallb_forall in Hak. apply (memb_in pgkey_eqb pgkey_eqb_eq). now apply Hak.
+  - exists st, keys, b. split; [exact Hst|]. split; [exact Hpk|]. split; [exact Hb|].
+    intros k Hk'. destruct (Hk k Hk') as [Hne Eq].
+    assert (Hik : In k (map snd nk)).
+    { unfold aut_keys_in in Hak. rewrite forallb_forall in Hak. specialize (Hak st Hst). rewrite forallb_forall in Hak.
+      apply (memb_in pgkey_eqb pgkey_eqb_eq). apply Hak. unfold useful_keys. apply in_or_app. right. unfold unique_keys.
+      apply (MatrixRun.uniq_in_gen pgkey_eqb pgkey_eqb_eq). apply in_flat_map. exists (N.of_nat i, keys). auto. }
+    apply in_map_iff in Hik as [[u k'] [Ek Hin]]. cbn [snd] in Ek. subst k'.
+    exists u. split; [exact Hin|]. rewrite Eq. now apply pgget_bind_of.
 Qed.
